@@ -1,5 +1,5 @@
 """C20 Introspection reports the true number of links and counts every message."""
-from mirlib import AnchorMissing, describe_call, describe_operand, dom_guards, guards, _suffix_match
+from mirlib import describe_rvalue, describe_place, AnchorMissing, describe_call, describe_operand, dom_guards, guards, _suffix_match
 from rules.common import named_argument_rule, aggregates, callers_by_name, calls_on_field, owner_def, where
 
 META = {
@@ -98,6 +98,29 @@ def run(ctx):
                             "remotes.%s inside impl LaneLinks" % c.name, "LaneLinks.remotes mutated outside impl LaneLinks")
 
     # ---- R2 Links: aggregate and two indexes --------------------------------------------------
+    with ctx.rule("C20.R1b", "T3", "a reporter attached to a lane starts from the lane's current number of links", floor=1) as r:
+        # every assignment of LaneLinks.reporter := Some(reporter) is accompanied, on the same path, by reporter.set_uplinks(remotes.len()):
+        # the property quantifies over reporters registered at arbitrary points
+        n = 0
+        for b in rt.all_bodies():
+            if "task::links::" not in b.defpath or "::tests" in b.defpath:
+                continue
+            for i_, j_, p_, rv, line in b.assigns():
+                dp = describe_place(b, p_)
+                if not dp.endswith(".reporter") or "LaneLinks" not in str(b.resolve(p_)) and "forward" not in dp and "links" not in dp:
+                    continue
+                d = describe_rvalue(b, rv)
+                if not d.startswith("Option::Some("):
+                    continue
+                n += 1
+                ctx.saw(b)
+                su = [c for c in b.calls if c.is_method(REP, "set_uplinks")]
+                okp = any(("len(" in describe_operand(b, c.args[1]) and "remotes" in describe_operand(b, c.args[1])) and (b.dominates(c.block, i_) or b.dominates(i_, c.block)) for c in su)
+                r.check(okp, "%s/reporter-attached=>current-count-published" % (b.meta.get("name") or b.defpath.split("::")[-1]), b.loc(line), "the new reporter is given remotes.len() when it is attached",
+                        "a reporter is attached to a lane without publishing the lane's current link count: it reports 0 links until the set next changes, however many remotes are linked")
+        if n == 0:
+            raise AnchorMissing("no assignment of LaneLinks.reporter found")
+
     with ctx.rule("C20.R2", "T2", "every Links method that changes a LaneLinks re-publishes the aggregate from total_count; forward/backwards move together", floor=8) as r:
         for nm in ("insert", "remove", "remove_lane", "remove_remote"):
             b = ctx.saw(rt.fn(name=nm, self_adt=LK))
